@@ -103,6 +103,11 @@ type Case struct {
 	Region  simkit.RegionSpec  `json:"region"`
 	Req     Request            `json:"req"`
 	Seed    int64              `json:"seed"` // math/rand seed (CreateScatterRegionOperator picks a random leader)
+	// LeaderCopy: how the region's leader object reaches pd (simkit.Region.LeaderCopy):
+	// "" = the peer-list entry, "bare" = the heartbeat's separate leader message with
+	// only id and store id, "stale" = a separate copy with the role it had before the
+	// joint state was entered. Every region handed to pd in the case is built that way.
+	LeaderCopy string `json:"leader_copy,omitempty"`
 }
 
 // ---------------------------------------------------------------- request model
@@ -562,7 +567,7 @@ func genCase(t *rapid.T) Case {
 	kind := simkit.Pick(t, []string{
 		"builder", "builder", "builder", "builder", "builder", "builder", "builder", "builder", "builder", "builder", "builder", "builder",
 		"addPeer", "removePeer", "movePeer", "movePeer", "moveLeader", "replaceLeaderPeer", "moveRegion", "moveRegion", "moveRegion",
-		"transferLeader", "forceTransferLeader", "scatter", "scatter", "scatter", "leaveJoint", "leaveJoint", "promoteLearner", "merge", "merge", "split",
+		"transferLeader", "forceTransferLeader", "scatter", "scatter", "scatter", "leaveJoint", "leaveJoint", "leaveJoint", "promoteLearner", "merge", "merge", "split",
 	}, "kind")
 	jointPct := 4
 	switch kind {
@@ -574,6 +579,8 @@ func genCase(t *rapid.T) Case {
 	c.Region = simkit.GenRegion(t, c.Cluster.StoreIDs(), simkit.RegionGen{MaxPeers: 5, Joint: jointPct})
 	c.Cluster.ReserveIDs(c.Region)
 	c.Cluster.AllocBase += 1000 // above the ids the generator may put into requests (500+store)
+	// a heartbeat carries the leader as a message of its own, not as a pointer into the peer list
+	c.LeaderCopy = simkit.Pick(t, []string{simkit.LeaderFromPeerList, simkit.LeaderFromPeerList, simkit.LeaderBare, simkit.LeaderBare, simkit.LeaderStaleRole}, "leaderCopy")
 	q := &c.Req
 	q.Kind = kind
 	onRegion := func(s uint64) bool { return c.Region.PeerOnStore(s) != nil }
@@ -892,6 +899,7 @@ func runOnce(c *Case, w *want, info *vkit.Info, rep int, tol *tolerated) error {
 	defer cancel()
 	ids := simkit.NewIDAlloc(c.Cluster.AllocBase + 100000)
 	sim := simkit.NewRegion(c.Region, ids)
+	sim.LeaderCopy = c.LeaderCopy
 	region := sim.ToRegionInfo()
 	mc.PutRegion(region)
 
@@ -1038,6 +1046,9 @@ func runOnce(c *Case, w *want, info *vkit.Info, rep int, tol *tolerated) error {
 		info.ClassIf(w.roles != nil, "expected-roles")
 		info.ClassIf(c.Cluster.PlacementRules, "placement-rules")
 		info.ClassIf(c.Region.InJoint(), "origin-joint")
+		info.ClassIf(c.LeaderCopy != "", "leader-copy:"+c.LeaderCopy)
+		info.ClassIf(c.Region.Leader >= 0 && c.Region.Peers[c.Region.Leader].Role == simkit.DemotingVoter, "origin-leader-demoting")
+		info.ClassIf(c.LeaderCopy != "" && c.Region.Leader >= 0 && c.Region.Peers[c.Region.Leader].Role.Joint(), "leader-copy-hides-joint-role")
 	}
 	return nil
 }
